@@ -1,16 +1,41 @@
 package main
 
-import "time"
+// Bounded model checking of concurrent harnesses under a symbolic scheduler.
+//
+// 1. Every harness thread is executed symbolically over the real SSA in thread mode
+//    (thread.go); all its paths form a tree of events (shared-memory accesses, lock and
+//    channel operations, environment stubs, assertions).  Which shared cells are mutable is
+//    found by a fixpoint over the threads' write sets.
+// 2. Events are grouped into atomic transactions by a mover analysis (Lipton reduction):
+//    lock acquisitions are right-movers, releases left-movers, accesses to cells that are
+//    consistently protected by a held lock both-movers; every access to a cell that is not
+//    consistently protected, every channel operation and every lock acquisition starts a
+//    new transaction.
+// 3. The transactions are unrolled K times with one scheduler variable per step; every
+//    obligation (assertion, completion/deadlock-freedom, data-race freedom, reachability
+//    witnesses) is one QF_BV query for z3.
 
-// BMC of concurrent harnesses under a symbolic scheduler (see bmc_*.go).
+import (
+	"fmt"
+	"os"
+	"path/filepath"
+	"sort"
+	"strings"
+	"sync"
+	"time"
+
+	"golang.org/x/tools/go/ssa"
+)
 
 type BMCSpec struct {
-	Name string
-	Pkg  string
-	Fn   string
-	Init []string
-	Tier string
-	K    int
+	Name  string
+	Pkg   string
+	Fn    string
+	Init  []string
+	Tier  string
+	Reach []string // reachability witnesses that must be satisfiable
+	ExpectReach []string
+	TimeoutSec int
 }
 
 type BMCViolation struct {
@@ -35,6 +60,1283 @@ var bmcStats struct {
 	Dur                    time.Duration
 }
 
+// ---------- event trees ----------
+
+type TEdge struct {
+	key  string
+	cond *Term
+	to   *TNode
+}
+
+type TNode struct {
+	id    int
+	tid   int
+	ev    *Event // nil for the root
+	edges []*TEdge
+	end   string // non-empty for leaves: thread-done, assume-false, panic, ...
+	endDetail string
+}
+
+type threadTree struct {
+	tid   int
+	name  string
+	root  *TNode
+	nodes int
+	paths int
+}
+
+func (tt *threadTree) insert(trace []traceItem, end, detail string) {
+	cur := tt.root
+	var conds []*Term
+	var key strings.Builder
+	tb := (*TB)(nil)
+	_ = tb
+	flush := func(ev *Event, endReason string) *TNode {
+		k := key.String()
+		for _, e := range cur.edges {
+			if e.key == k {
+				return e.to
+			}
+		}
+		tt.nodes++
+		n := &TNode{id: tt.nodes, tid: tt.tid, ev: ev, end: endReason}
+		cur.edges = append(cur.edges, &TEdge{key: k, cond: nil, to: n})
+		cur.edges[len(cur.edges)-1].cond = andAll(conds)
+		return n
+	}
+	for _, it := range trace {
+		if it.dec {
+			conds = append(conds, it.cond)
+			fmt.Fprintf(&key, "%d,", it.val)
+			continue
+		}
+		n := flush(it.ev, "")
+		cur = n
+		conds = nil
+		key.Reset()
+	}
+	// leaf
+	key.WriteString("$" + end)
+	leaf := flush(nil, end)
+	leaf.endDetail = detail
+}
+
+// mergeIsomorphic turns the tree into a DAG by merging nodes with identical events and
+// identical (recursively merged) successors.
+func (tt *threadTree) mergeIsomorphic() (before, after int) {
+	canon := map[string]*TNode{}
+	var count func(n *TNode, seen map[*TNode]bool) int
+	count = func(n *TNode, seen map[*TNode]bool) int {
+		if seen[n] {
+			return 0
+		}
+		seen[n] = true
+		c := 1
+		for _, e := range n.edges {
+			c += count(e.to, seen)
+		}
+		return c
+	}
+	before = count(tt.root, map[*TNode]bool{})
+	var walk func(n *TNode) *TNode
+	memo := map[*TNode]*TNode{}
+	walk = func(n *TNode) *TNode {
+		if m, ok := memo[n]; ok {
+			return m
+		}
+		var sig strings.Builder
+		if n.ev != nil {
+			ev := n.ev
+			fmt.Fprintf(&sig, "%s|", ev.Kind)
+			if ev.Cell != nil {
+				sig.WriteString(ev.Cell.Key)
+			}
+			sig.WriteString("|" + ev.Mutex + "|" + ev.Name + "|")
+			sigTerms := append(append([]*Term{ev.Var, ev.Val, ev.Ch, ev.Cond}, ev.Vals...), ev.Vars...)
+			for _, t := range sigTerms {
+				if t != nil {
+					fmt.Fprintf(&sig, "%d,", t.ID)
+				} else {
+					sig.WriteString("-,")
+				}
+			}
+			fmt.Fprintf(&sig, "%v", ev.Atomic)
+		} else {
+			sig.WriteString("leaf:" + n.end + ":" + n.endDetail)
+		}
+		for _, e := range n.edges {
+			e.to = walk(e.to)
+			cid := 0
+			if e.cond != nil {
+				cid = e.cond.ID
+			}
+			fmt.Fprintf(&sig, ";%d>%p", cid, e.to)
+		}
+		if n == tt.root {
+			memo[n] = n
+			return n
+		}
+		k := sig.String()
+		if c, ok := canon[k]; ok {
+			memo[n] = c
+			return c
+		}
+		canon[k] = n
+		memo[n] = n
+		return n
+	}
+	walk(tt.root)
+	after = count(tt.root, map[*TNode]bool{})
+	return
+}
+
+var bmcTB *TB
+var bmcSetupPC []*Term
+
+func andAll(cs []*Term) *Term {
+	if len(cs) == 0 {
+		return nil
+	}
+	return bmcTB.And(cs...)
+}
+
+// buildTrees explores every path of every thread (single worker: all terms live in one TB).
+func (w *World) buildTrees(hf *ssa.Function, opts *RunOpts, ex *Exec, mutable map[string]bool, known bool, writeLock map[string]map[string]bool) (trees []*threadTree, cells map[string]*Cell, written map[string]bool, problems []string, nthreads int) {
+	cells = map[string]*Cell{}
+	written = map[string]bool{}
+	nthreads = -1
+	for tid := 0; nthreads < 0 || tid < nthreads; tid++ {
+		tt := &threadTree{tid: tid, root: &TNode{tid: tid}}
+		queue := [][]int{nil}
+		ex.emit = func(np []int) { queue = append(queue, np) }
+		for len(queue) > 0 {
+			prefix := queue[len(queue)-1]
+			queue = queue[:len(queue)-1]
+			ex.tm = &threadMode{tid: tid, mutable: mutable, written: map[string]bool{}, touched: map[string]*Cell{}, mutableKnown: known,
+				held: map[string]string{}, cache: map[string]Value{}, writeLock: writeLock, posCount: map[string]int{}}
+			res := ex.RunPath(hf, prefix)
+			tm := ex.tm
+			if tm.setupPC != nil {
+				bmcSetupPC = tm.setupPC
+			}
+			if nthreads < 0 {
+				nthreads = len(ex.bmcThreads)
+			}
+			if res.End == "no-such-thread" {
+				break
+			}
+			tt.name = tm.name
+			tt.paths++
+			for k := range tm.written {
+				written[k] = true
+			}
+			for k, c := range tm.touched {
+				if old, ok := cells[k]; !ok || (old.Init == nil && c.Init != nil) {
+					cells[k] = c
+				}
+			}
+			switch res.End {
+			case "thread-done", "assume-false", "assume-infeasible", "infeasible", "seq-overflow":
+				tt.insert(tm.trace, res.End, "")
+			case "panic":
+				tt.insert(tm.trace, "panic", res.Panic)
+			case "unsupported":
+				problems = append(problems, fmt.Sprintf("thread %s: unsupported: %s", tm.name, res.Unsup))
+				tt.insert(tm.trace, "unsupported", res.Unsup)
+			default:
+				problems = append(problems, fmt.Sprintf("thread %s: path ended with %q", tm.name, res.End))
+				tt.insert(tm.trace, res.End, "")
+			}
+			if tt.paths > 20000 {
+				problems = append(problems, "thread "+tm.name+": more than 20000 paths")
+				break
+			}
+		}
+		if nthreads < 0 || tid >= nthreads {
+			break
+		}
+		trees = append(trees, tt)
+	}
+	ex.emit = nil
+	ex.tm = nil
+	return
+}
+
+// cellGroup strips the sub-cell suffix (#len, #e0, ...) so that a slice counts as one location.
+func cellGroup(key string) string {
+	if i := strings.Index(key, "#"); i >= 0 {
+		return key[:i]
+	}
+	return key
+}
+
+// ---------- transactions ----------
+
+type microEv struct {
+	ev    *Event
+	guard *Term // condition of the edge leading to this event (nil = true)
+}
+
+type outcome struct {
+	guard   []*Term
+	events  []*Event
+	evGuard [][]*Term // guard prefix at each event (for assertions)
+	next    *TNode    // start node of the next transaction (nil: leaf)
+	leaf    string    // end reason when next == nil
+	leafDetail string
+}
+
+type transaction struct {
+	id       int // per thread, 1-based; 0 = DONE
+	tid      int
+	start    *TNode
+	first    *Event
+	outcomes []*outcome
+	held     map[string]string // locks held at the start (mutex -> "w"/"r")
+}
+
+type accessInfo struct {
+	cell  *Cell
+	write bool
+	tid   int
+	heldW map[string]bool
+	heldR map[string]bool
+	atomic bool
+}
+
+func copyHeld(h map[string]string) map[string]string {
+	n := map[string]string{}
+	for k, v := range h {
+		n[k] = v
+	}
+	return n
+}
+
+// collectAccesses walks a tree recording the lock sets of every shared access.
+func collectAccesses(n *TNode, held map[string]string, inAtomic int, out *[]accessInfo) {
+	if n.ev != nil {
+		switch n.ev.Kind {
+		case "lock":
+			held = copyHeld(held)
+			held[n.ev.Mutex] = "w"
+		case "rlock":
+			held = copyHeld(held)
+			held[n.ev.Mutex] = "r"
+		case "unlock", "runlock":
+			held = copyHeld(held)
+			delete(held, n.ev.Mutex)
+		case "read", "write":
+			ai := accessInfo{cell: n.ev.Cell, write: n.ev.Kind == "write", tid: n.tid, heldW: map[string]bool{}, heldR: map[string]bool{}, atomic: n.ev.Atomic}
+			for m, mode := range held {
+				if mode == "w" {
+					ai.heldW[m] = true
+				}
+				ai.heldR[m] = true
+			}
+			*out = append(*out, ai)
+		}
+	}
+	for _, e := range n.edges {
+		collectAccesses(e.to, held, inAtomic, out)
+	}
+}
+
+// protectedCells: a cell is consistently protected if one mutex is held in write mode at
+// every write and in (at least) read mode at every read, or if it is only accessed inside
+// atomic environment stubs (ghost state), or by a single thread.
+func protectedCells(acc []accessInfo) (prot map[string]bool, why map[string]string, writeLock map[string]map[string]bool) {
+	prot = map[string]bool{}
+	why = map[string]string{}
+	writeLock = map[string]map[string]bool{}
+	for _, a := range acc {
+		if !a.write || a.atomic {
+			continue
+		}
+		key := cellGroup(a.cell.Key)
+		if cur, ok := writeLock[key]; !ok {
+			n := map[string]bool{}
+			for m := range a.heldW {
+				n[m] = true
+			}
+			writeLock[key] = n
+		} else {
+			for m := range cur {
+				if !a.heldW[m] {
+					delete(cur, m)
+				}
+			}
+		}
+	}
+	byCell := map[string][]accessInfo{}
+	for _, a := range acc {
+		byCell[a.cell.Key] = append(byCell[a.cell.Key], a)
+	}
+	for key, as := range byCell {
+		allAtomic := true
+		tids := map[int]bool{}
+		for _, a := range as {
+			if !a.atomic {
+				allAtomic = false
+			}
+			tids[a.tid] = true
+		}
+		if allAtomic {
+			prot[key] = true
+			why[key] = "ghost (only accessed inside atomic stubs)"
+			continue
+		}
+		if len(tids) == 1 {
+			prot[key] = true
+			why[key] = "accessed by one thread only"
+			continue
+		}
+		var cand map[string]bool
+		for _, a := range as {
+			if a.atomic {
+				continue
+			}
+			set := a.heldR
+			if a.write {
+				set = a.heldW
+			}
+			if cand == nil {
+				cand = map[string]bool{}
+				for m := range set {
+					cand[m] = true
+				}
+			} else {
+				for m := range cand {
+					if !set[m] {
+						delete(cand, m)
+					}
+				}
+			}
+		}
+		if len(cand) > 0 {
+			prot[key] = true
+			for m := range cand {
+				why[key] = "protected by mutex " + m
+			}
+		} else {
+			why[key] = "NOT consistently protected"
+		}
+	}
+	return
+}
+
+type txBuilder struct {
+	writeLock map[string]map[string]bool
+	prot  map[string]bool
+	txs   []*transaction
+	byNode map[*TNode]*transaction
+	tid   int
+}
+
+// mover: a write is a both-mover when its cell is consistently protected; a read is one when the
+// reader holds a mutex that every writer of the cell holds in write mode.
+func (b *txBuilder) mover(ev *Event, held map[string]string) bool {
+	if b.prot[ev.Cell.Key] {
+		return true
+	}
+	if ev.Kind == "write" {
+		return false
+	}
+	wl, ok := b.writeLock[cellGroup(ev.Cell.Key)]
+	if !ok {
+		return true
+	}
+	for m := range held {
+		if wl[m] {
+			return true
+		}
+	}
+	return false
+}
+
+func isBlocking(ev *Event) bool {
+	switch ev.Kind {
+	case "lock", "rlock", "send", "recv":
+		return true
+	}
+	return false
+}
+
+// build creates the transaction starting at node n (n.ev is its first event).
+func (b *txBuilder) build(n *TNode, held map[string]string) *transaction {
+	if t, ok := b.byNode[n]; ok {
+		return t
+	}
+	t := &transaction{id: len(b.txs) + 1, tid: b.tid, start: n, first: n.ev, held: copyHeld(held)}
+	b.txs = append(b.txs, t)
+	b.byNode[n] = t
+	type frame struct {
+		node   *TNode
+		guards []*Term
+		events []*Event
+		evG    [][]*Term
+		post   bool
+		atomic int
+		held   map[string]string
+	}
+	var pending []struct {
+		node *TNode
+		held map[string]string
+	}
+	var walk func(f frame)
+	walk = func(f frame) {
+		ev := f.node.ev
+		// include ev
+		f.events = append(append([]*Event{}, f.events...), ev)
+		f.evG = append(append([][]*Term{}, f.evG...), append([]*Term{}, f.guards...))
+		f.held = copyHeld(f.held)
+		switch ev.Kind {
+		case "lock":
+			f.held[ev.Mutex] = "w"
+		case "rlock":
+			f.held[ev.Mutex] = "r"
+		case "unlock", "runlock":
+			delete(f.held, ev.Mutex)
+			f.post = true
+		case "send", "recv":
+			f.post = true
+		case "atomic-begin":
+			f.atomic++
+			f.post = true
+		case "atomic-end":
+			f.atomic--
+		case "read", "write":
+			if f.atomic == 0 && !b.mover(ev, f.held) {
+				f.post = true
+			}
+		}
+		if len(f.node.edges) == 0 {
+			panic("event node without successors")
+		}
+		for _, e := range f.node.edges {
+			g := f.guards
+			if e.cond != nil {
+				g = append(append([]*Term{}, f.guards...), e.cond)
+			}
+			c := e.to
+			if c.ev == nil {
+				t.outcomes = append(t.outcomes, &outcome{guard: g, events: f.events, evGuard: f.evG, leaf: c.end, leafDetail: c.endDetail})
+				continue
+			}
+			cut := false
+			if f.atomic == 0 {
+				switch {
+				case isBlocking(c.ev):
+					cut = true
+				case c.ev.Kind == "atomic-begin":
+					cut = f.post
+				case (c.ev.Kind == "read" || c.ev.Kind == "write") && !b.mover(c.ev, f.held):
+					cut = true
+				}
+			}
+			if cut {
+				t.outcomes = append(t.outcomes, &outcome{guard: g, events: f.events, evGuard: f.evG, next: c})
+				pending = append(pending, struct {
+					node *TNode
+					held map[string]string
+				}{c, f.held})
+				continue
+			}
+			walk(frame{node: c, guards: g, events: f.events, evG: f.evG, post: f.post, atomic: f.atomic, held: f.held})
+		}
+	}
+	walk(frame{node: n, held: held})
+	for _, p := range pending {
+		b.build(p.node, p.held)
+	}
+	return t
+}
+
+// ---------- the transition system ----------
+
+type bmcSystem struct {
+	tb       *TB
+	trees    []*threadTree
+	cells    []*Cell
+	cellIdx  map[string]*Cell
+	mutexes  []string
+	prot     map[string]bool
+	protWhy  map[string]string
+	writeLock map[string]map[string]bool
+	txs      [][]*transaction // per thread
+	rootTx   []*transaction
+	K        int
+	nthreads int
+	problems []string
+	leafEnds map[string]int
+}
+
+const pcDone = 0
+const pcDead = 250
+const pcPanic = 251
+
+func (s *bmcSystem) cellVar(c *Cell, k int) *Term {
+	return s.tb.Var(fmt.Sprintf("%s!%d", c.Key, k), c.W)
+}
+func (s *bmcSystem) lockW(m string, k int) *Term { return s.tb.Var(fmt.Sprintf("%s.w!%d", m, k), 0) }
+func (s *bmcSystem) lockR(m string, k int) *Term { return s.tb.Var(fmt.Sprintf("%s.r!%d", m, k), 4) }
+func (s *bmcSystem) pcVar(t, k int) *Term       { return s.tb.Var(fmt.Sprintf("pc%d!%d", t, k), 8) }
+func (s *bmcSystem) schedVar(k int) *Term       { return s.tb.Var(fmt.Sprintf("sched!%d", k), 4) }
+
+func txDepth(t *transaction, byNode map[*TNode]*transaction, memo map[*transaction]int) int {
+	if d, ok := memo[t]; ok {
+		return d
+	}
+	best := 0
+	for _, o := range t.outcomes {
+		if o.next != nil {
+			if d := txDepth(byNode[o.next], byNode, memo); d > best {
+				best = d
+			}
+		}
+	}
+	memo[t] = best + 1
+	return best + 1
+}
+
+type obligation struct {
+	name   string
+	kind   string // assert | complete | race | reach | nopanic
+	expect string // "unsat" (property) or "sat" (witness)
+	term   *Term
+	detail string
+	kfID   string
+	kfTerm *Term
+}
+
+// encode builds the base constraints and the obligations.
+func (s *bmcSystem) encode() (base []*Term, obls []*obligation) {
+	tb := s.tb
+	K := s.K
+	type writer struct {
+		sel *Term
+		val *Term
+	}
+	asserts := map[string][]*Term{}    // name -> violation disjuncts
+	assertKF := map[string]*obligation{}
+	reaches := map[string][]*Term{}
+	var panics []*Term
+	var panicWhat []string
+	var overflow []*Term
+	var gaps []*Term
+	// initial state
+	for _, c := range s.cells {
+		init := c.Init
+		if init == nil {
+			if c.W == 0 {
+				init = tb.False
+			} else {
+				init = tb.BV(c.W, 0)
+			}
+		}
+		base = append(base, tb.Eq(s.cellVar(c, 0), init))
+	}
+	for _, m := range s.mutexes {
+		base = append(base, tb.Not(s.lockW(m, 0)), tb.Eq(s.lockR(m, 0), tb.BV(4, 0)))
+	}
+	for t := 0; t < s.nthreads; t++ {
+		start := pcDone
+		if s.rootTx[t] != nil {
+			start = s.rootTx[t].id
+		}
+		base = append(base, tb.Eq(s.pcVar(t, 0), tb.BV(8, uint64(start))))
+	}
+	_ = 0
+	for k := 0; k < K; k++ {
+		sched := s.schedVar(k)
+		base = append(base, tb.Cmp(OpUlt, sched, tb.BV(4, uint64(s.nthreads))))
+		cellW := map[string][]writer{}
+		lockWW := map[string][]writer{}
+		lockRW := map[string][]writer{}
+		pcW := make([][]writer, s.nthreads)
+		var anyEnabled []*Term
+		var anyFire []*Term
+		// receive transactions are fired by their partner's send
+		type recvSite struct {
+			tx *transaction
+			at *Term
+		}
+		var recvs []recvSite
+		for t := 0; t < s.nthreads; t++ {
+			for _, tx := range s.txs[t] {
+				if tx.first.Kind == "recv" {
+					recvs = append(recvs, recvSite{tx, tb.Eq(s.pcVar(t, k), tb.BV(8, uint64(tx.id)))})
+				}
+			}
+		}
+		fireOf := map[*transaction]*Term{}
+		recvFire := map[*transaction][]*Term{}
+		for t := 0; t < s.nthreads; t++ {
+			for _, tx := range s.txs[t] {
+				if tx.first.Kind == "recv" {
+					continue
+				}
+				at := tb.Eq(s.pcVar(t, k), tb.BV(8, uint64(tx.id)))
+				en := tb.True
+				switch tx.first.Kind {
+				case "lock":
+					en = tb.And(tb.Not(s.lockW(tx.first.Mutex, k)), tb.Eq(s.lockR(tx.first.Mutex, k), tb.BV(4, 0)))
+				case "rlock":
+					en = tb.Not(s.lockW(tx.first.Mutex, k))
+				case "send":
+					// rendezvous with the lowest-numbered thread waiting on the same channel
+					var partners []*Term
+					taken := tb.False
+					for _, r := range recvs {
+						if r.tx.tid == t {
+							continue
+						}
+						m := tb.And(r.at, tb.Eq(r.tx.first.Ch, tx.first.Ch))
+						sel := tb.And(m, tb.Not(taken))
+						partners = append(partners, sel)
+						taken = tb.Or(taken, m)
+						pair := tb.And(tb.Eq(sched, tb.BV(4, uint64(t))), at, sel)
+						recvFire[r.tx] = append(recvFire[r.tx], pair)
+						// the payload is handed over
+						if len(r.tx.first.Vars) == len(tx.first.Vals) {
+							for i, rv := range r.tx.first.Vars {
+								base = append(base, tb.Implies(pair, tb.Eq(rv, tx.first.Vals[i])))
+							}
+						} else if len(r.tx.first.Vars)+len(tx.first.Vals) > 0 {
+							base = append(base, tb.Not(pair))
+						}
+					}
+					en = tb.Or(partners...)
+				}
+				enabled := tb.And(at, en)
+				anyEnabled = append(anyEnabled, enabled)
+				fire := tb.And(tb.Eq(sched, tb.BV(4, uint64(t))), enabled)
+				anyFire = append(anyFire, fire)
+				fireOf[tx] = fire
+			}
+		}
+		for _, r := range recvs {
+			fireOf[r.tx] = tb.Or(recvFire[r.tx]...)
+		}
+		// effects
+		for t := 0; t < s.nthreads; t++ {
+			for _, tx := range s.txs[t] {
+				fire := fireOf[tx]
+				if fire.IsFalse() {
+					continue
+				}
+				var someOutcome []*Term
+				for _, o := range tx.outcomes {
+					someOutcome = append(someOutcome, tb.And(o.guard...))
+				}
+				gaps = append(gaps, tb.And(fire, tb.Not(tb.Or(someOutcome...))))
+				for _, o := range tx.outcomes {
+					seenRead := map[int]bool{}
+					sel := tb.And(append([]*Term{fire}, o.guard...)...)
+					cur := map[string]*Term{}
+					curLW := map[string]*Term{}
+					curLR := map[string]*Term{}
+					for i, ev := range o.events {
+						pre := tb.And(append([]*Term{fire}, o.evGuard[i]...)...)
+						switch ev.Kind {
+						case "read":
+							if seenRead[ev.Var.ID] {
+								continue
+							}
+							seenRead[ev.Var.ID] = true
+							if v, ok := cur[ev.Cell.Key]; ok {
+								base = append(base, tb.Implies(pre, tb.Eq(ev.Var, v)))
+							} else {
+								base = append(base, tb.Implies(pre, tb.Eq(ev.Var, s.cellVar(s.cellIdx[ev.Cell.Key], k))))
+							}
+						case "write":
+							cur[ev.Cell.Key] = ev.Val
+						case "lock":
+							curLW[ev.Mutex] = tb.True
+						case "unlock":
+							curLW[ev.Mutex] = tb.False
+						case "rlock":
+							old, ok := curLR[ev.Mutex]
+							if !ok {
+								old = s.lockR(ev.Mutex, k)
+							}
+							curLR[ev.Mutex] = tb.Add(old, tb.BV(4, 1))
+						case "runlock":
+							old, ok := curLR[ev.Mutex]
+							if !ok {
+								old = s.lockR(ev.Mutex, k)
+							}
+							curLR[ev.Mutex] = tb.Sub(old, tb.BV(4, 1))
+						case "assume":
+							base = append(base, tb.Implies(pre, ev.Cond))
+						case "assert":
+							asserts[ev.Name] = append(asserts[ev.Name], tb.And(pre, tb.Not(ev.Cond)))
+						case "reach":
+							reaches[ev.Name] = append(reaches[ev.Name], pre)
+						}
+					}
+					for key, v := range cur {
+						cellW[key] = append(cellW[key], writer{sel, v})
+					}
+					for m, v := range curLW {
+						lockWW[m] = append(lockWW[m], writer{sel, v})
+					}
+					for m, v := range curLR {
+						lockRW[m] = append(lockRW[m], writer{sel, v})
+					}
+					next := pcDone
+					if o.next != nil {
+						next = findTx(s.txs[t], o.next).id
+					} else {
+						switch o.leaf {
+						case "thread-done":
+							next = pcDone
+						case "panic":
+							next = pcPanic
+							panics = append(panics, sel)
+							panicWhat = append(panicWhat, o.leafDetail)
+						case "seq-overflow":
+							next = pcDead
+							overflow = append(overflow, sel)
+						default:
+							// assume-false / infeasible leaves: executions through them are excluded
+							next = pcDead
+							base = append(base, tb.Not(sel))
+						}
+					}
+					pcW[t] = append(pcW[t], writer{sel, tb.BV(8, uint64(next))})
+				}
+			}
+		}
+		// frame: next-state functions
+		mk := func(ws []writer, old *Term) *Term {
+			v := old
+			for i := len(ws) - 1; i >= 0; i-- {
+				v = tb.Ite(ws[i].sel, ws[i].val, v)
+			}
+			return v
+		}
+		for _, c := range s.cells {
+			base = append(base, tb.Eq(s.cellVar(c, k+1), mk(cellW[c.Key], s.cellVar(c, k))))
+		}
+		for _, m := range s.mutexes {
+			base = append(base, tb.Eq(s.lockW(m, k+1), mk(lockWW[m], s.lockW(m, k))))
+			base = append(base, tb.Eq(s.lockR(m, k+1), mk(lockRW[m], s.lockR(m, k))))
+		}
+		for t := 0; t < s.nthreads; t++ {
+			base = append(base, tb.Eq(s.pcVar(t, k+1), mk(pcW[t], s.pcVar(t, k))))
+		}
+		// the scheduler picks an enabled thread whenever there is one
+		base = append(base, tb.Implies(tb.Or(anyEnabled...), tb.Or(anyFire...)))
+	}
+	// ---- obligations ----
+	var names []string
+	for n := range asserts {
+		names = append(names, n)
+	}
+	sort.Strings(names)
+	for _, n := range names {
+		if ob, ok := assertKF[n]; ok {
+			obls = append(obls, ob)
+			continue
+		}
+		obls = append(obls, &obligation{name: n, kind: "assert", expect: "unsat", term: tb.Or(asserts[n]...)})
+	}
+	// completion: with K = sum of the longest transaction chains and a scheduler that always runs an
+	// enabled thread, a thread that is not done at step K is blocked for ever (deadlock / lost wake-up)
+	var notDone []*Term
+	for t := 0; t < s.nthreads; t++ {
+		notDone = append(notDone, tb.Ne(s.pcVar(t, K), tb.BV(8, pcDone)))
+	}
+	obls = append(obls, &obligation{name: "every-thread-completes (no deadlock, no lost wake-up)", kind: "complete", expect: "unsat", term: tb.And(tb.Or(notDone...), tb.Not(tb.Or(panics...)))})
+	obls = append(obls, &obligation{name: "encoding: every fired transaction has an outcome", kind: "unwind", expect: "unsat", term: tb.Or(gaps...)})
+	if len(overflow) > 0 {
+		obls = append(obls, &obligation{name: "unwinding: shared sequence bound is sufficient", kind: "unwind", expect: "unsat", term: tb.Or(overflow...)})
+	}
+	if len(panics) > 0 {
+		obls = append(obls, &obligation{name: "no-panic", kind: "nopanic", expect: "unsat", term: tb.Or(panics...), detail: strings.Join(uniq(panicWhat), "; ")})
+	}
+	// data races: two threads simultaneously at conflicting accesses of an unprotected cell
+	type site struct {
+		tx    *transaction
+		write bool
+	}
+	sites := map[string][]site{}
+	for t := 0; t < s.nthreads; t++ {
+		for _, tx := range s.txs[t] {
+			ev := tx.first
+			if (ev.Kind == "read" || ev.Kind == "write") && !ev.Atomic {
+				b := &txBuilder{prot: s.prot, writeLock: s.writeLock}
+				if !b.mover(ev, tx.held) {
+					sites[cellGroup(ev.Cell.Key)] = append(sites[cellGroup(ev.Cell.Key)], site{tx, ev.Kind == "write"})
+				}
+			}
+		}
+	}
+	var raceCells []string
+	for c := range sites {
+		raceCells = append(raceCells, c)
+	}
+	sort.Strings(raceCells)
+	for _, c := range raceCells {
+		var dis []*Term
+		ss := sites[c]
+		for i := 0; i < len(ss); i++ {
+			for j := i + 1; j < len(ss); j++ {
+				a, b := ss[i], ss[j]
+				if a.tx.tid == b.tx.tid || (!a.write && !b.write) {
+					continue
+				}
+				// a common lock held by both rules the pair out
+				common := false
+				for m := range a.tx.held {
+					if _, ok := b.tx.held[m]; ok && (a.tx.held[m] == "w" || b.tx.held[m] == "w") {
+						common = true
+					}
+				}
+				if common {
+					continue
+				}
+				for k := 0; k <= K; k++ {
+					dis = append(dis, tb.And(tb.Eq(s.pcVar(a.tx.tid, k), tb.BV(8, uint64(a.tx.id))), tb.Eq(s.pcVar(b.tx.tid, k), tb.BV(8, uint64(b.tx.id)))))
+				}
+			}
+		}
+		if len(dis) > 0 {
+			desc := c
+			for _, cc := range s.cells {
+				if cellGroup(cc.Key) == c {
+					desc = cellGroup(cc.Desc)
+					break
+				}
+			}
+			obls = append(obls, &obligation{name: "race-free:" + desc, kind: "race", expect: "unsat", term: tb.Or(dis...), detail: c})
+		}
+	}
+	names = names[:0]
+	for n := range reaches {
+		names = append(names, n)
+	}
+	sort.Strings(names)
+	for _, n := range names {
+		obls = append(obls, &obligation{name: "reach:" + n, kind: "reach", expect: "sat", term: tb.Or(reaches[n]...)})
+	}
+	return
+}
+
+func sameWriteLock(a, b map[string]map[string]bool) bool {
+	if len(a) != len(b) {
+		return false
+	}
+	for k, am := range a {
+		bm, ok := b[k]
+		if !ok || len(am) != len(bm) {
+			return false
+		}
+		for m := range am {
+			if !bm[m] {
+				return false
+			}
+		}
+	}
+	return true
+}
+
+func uniq(ss []string) []string {
+	m := map[string]bool{}
+	var out []string
+	for _, s := range ss {
+		if !m[s] {
+			m[s] = true
+			out = append(out, s)
+		}
+	}
+	return out
+}
+
+func findTx(txs []*transaction, n *TNode) *transaction {
+	for _, t := range txs {
+		if t.start == n {
+			return t
+		}
+	}
+	panic("transaction for node not found")
+}
+
+// ---------- driver ----------
+
+func (w *World) buildBMCSystem(bs BMCSpec, tierN int, solver *Solver) (*bmcSystem, error) {
+	sp := w.ld.Src[pikeMod+"/"+bs.Pkg]
+	if sp == nil {
+		return nil, fmt.Errorf("package %s not loaded", bs.Pkg)
+	}
+	hf := sp.Func(bs.Fn)
+	if hf == nil {
+		return nil, fmt.Errorf("harness %s.%s not found", bs.Pkg, bs.Fn)
+	}
+	opts := &RunOpts{InitPkgs: bs.Init, Tier: tierN}
+	ex := NewExec(w.ld, solver, w.hooks, opts)
+	bmcTB = ex.tb
+	mutable := map[string]bool{}
+	var trees []*threadTree
+	var cells map[string]*Cell
+	var problems []string
+	nthreads := 0
+	var writeLock map[string]map[string]bool
+	for pass := 0; pass < 8; pass++ {
+		var written map[string]bool
+		t0 := time.Now()
+		trees, cells, written, problems, nthreads = w.buildTrees(hf, opts, ex, mutable, pass > 0, writeLock)
+		grew := false
+		for k := range written {
+			if !mutable[k] {
+				mutable[k] = true
+				grew = true
+			}
+		}
+		var acc []accessInfo
+		for _, tt := range trees {
+			collectAccesses(tt.root, map[string]string{}, 0, &acc)
+		}
+		_, _, wl := protectedCells(acc)
+		same := writeLock != nil && sameWriteLock(wl, writeLock)
+		writeLock = wl
+		if os.Getenv("SYMGO_DEBUG") != "" {
+			np := 0
+			for _, tt := range trees {
+				np += tt.paths
+			}
+			fmt.Fprintf(os.Stderr, "bmc pass %d: %d threads, %d paths, %d mutable cells, %v (grew=%v stable-locks=%v) problems=%d\n", pass, nthreads, np, len(mutable), time.Since(t0), grew, same, len(problems))
+		}
+		if os.Getenv("SYMGO_DEBUG") != "" {
+			for i, p := range problems {
+				if i < 5 {
+					fmt.Fprintln(os.Stderr, "  problem:", p)
+				}
+			}
+		}
+		if !grew && same && pass > 0 {
+			break
+		}
+		if pass == 7 {
+			problems = append(problems, "mutable-cell / lock-set fixpoint did not converge in 8 passes")
+		}
+	}
+	s := &bmcSystem{tb: ex.tb, trees: trees, cellIdx: map[string]*Cell{}, nthreads: nthreads, problems: problems, leafEnds: map[string]int{}}
+	var keys []string
+	for k := range cells {
+		if mutable[k] {
+			keys = append(keys, k)
+		}
+	}
+	sort.Strings(keys)
+	for _, k := range keys {
+		s.cells = append(s.cells, cells[k])
+		s.cellIdx[k] = cells[k]
+	}
+	var acc []accessInfo
+	mset := map[string]bool{}
+	var collectM func(n *TNode)
+	collectM = func(n *TNode) {
+		if n.ev != nil && n.ev.Mutex != "" {
+			mset[n.ev.Mutex] = true
+		}
+		if n.end != "" {
+			s.leafEnds[n.end]++
+		}
+		for _, e := range n.edges {
+			collectM(e.to)
+		}
+	}
+	for _, tt := range trees {
+		b, a := tt.mergeIsomorphic()
+		if os.Getenv("SYMGO_DEBUG") != "" {
+			fmt.Fprintf(os.Stderr, "thread %s: %d tree nodes -> %d DAG nodes\n", tt.name, b, a)
+		}
+		collectAccesses(tt.root, map[string]string{}, 0, &acc)
+		collectM(tt.root)
+	}
+	for m := range mset {
+		s.mutexes = append(s.mutexes, m)
+	}
+	sort.Strings(s.mutexes)
+	s.prot, s.protWhy, s.writeLock = protectedCells(acc)
+	s.txs = make([][]*transaction, nthreads)
+	s.rootTx = make([]*transaction, nthreads)
+	K := 0
+	for t, tt := range trees {
+		b := &txBuilder{prot: s.prot, writeLock: s.writeLock, byNode: map[*TNode]*transaction{}, tid: t}
+		if len(tt.root.edges) != 1 {
+			return nil, fmt.Errorf("thread %s: the thread body must start with an event (got %d initial branches)", tt.name, len(tt.root.edges))
+		}
+		first := tt.root.edges[0].to
+		if first.ev == nil {
+			s.txs[t] = nil
+			continue
+		}
+		s.rootTx[t] = b.build(first, map[string]string{})
+		s.txs[t] = b.txs
+		if len(b.txs) > 240 {
+			return nil, fmt.Errorf("thread %s: %d transactions (limit 240)", tt.name, len(b.txs))
+		}
+		K += txDepth(s.rootTx[t], b.byNode, map[*transaction]int{})
+	}
+	s.K = K
+	return s, nil
+}
+
+func (s *bmcSystem) describe() map[string]interface{} {
+	ntx, nout := 0, 0
+	for _, txs := range s.txs {
+		ntx += len(txs)
+		for _, t := range txs {
+			nout += len(t.outcomes)
+		}
+	}
+	var cellDesc []string
+	for _, c := range s.cells {
+		cellDesc = append(cellDesc, fmt.Sprintf("%s [%s]: %s", c.Desc, c.Kind, s.protWhy[c.Key]))
+	}
+	var th []map[string]interface{}
+	for i, tt := range s.trees {
+		th = append(th, map[string]interface{}{"thread": tt.name, "paths": tt.paths, "event_nodes": tt.nodes, "transactions": len(s.txs[i])})
+	}
+	return map[string]interface{}{
+		"threads": th, "shared_mutable_cells": cellDesc, "mutexes": s.mutexes, "K_steps": s.K,
+		"transactions": ntx, "guarded_outcomes": nout, "leaf_ends": s.leafEnds,
+	}
+}
+
 func (w *World) RunBMC(id string, bs BMCSpec, tier string, kfs map[string]KnownFinding) *BMCResult {
-	return &BMCResult{Summary: map[string]interface{}{"bmc": bs.Name, "status": "not implemented"}, Inconclusive: []string{"BMC not implemented: " + bs.Name}}
+	t0 := time.Now()
+	br := &BMCResult{Known: map[string]string{}, Summary: map[string]interface{}{"bmc": bs.Name, "harness": bs.Pkg + "." + bs.Fn}}
+	tierN := 0
+	if tier == "thorough" {
+		tierN = 1
+	}
+	solver, err := NewSolver("z3", 60000)
+	if err != nil {
+		br.Inconclusive = append(br.Inconclusive, "cannot start z3: "+err.Error())
+		return br
+	}
+	defer solver.Close()
+	sys, err := w.buildBMCSystem(bs, tierN, solver)
+	if err != nil {
+		br.Inconclusive = append(br.Inconclusive, bs.Name+": "+err.Error())
+		return br
+	}
+	for _, p := range sys.problems {
+		br.Inconclusive = append(br.Inconclusive, bs.Name+": "+p)
+	}
+	for k, v := range sys.describe() {
+		br.Summary[k] = v
+	}
+	br.Summary["tree_build_s"] = time.Since(t0).Seconds()
+	if len(sys.problems) > 0 {
+		return br
+	}
+	base, obls := sys.encode()
+	base = append(base, bmcSetupPC...)
+	// print the base once
+	p := NewPrinter(sys.tb)
+	for _, b := range base {
+		p.Assert(b)
+	}
+	baseText := "(set-logic QF_BV)\n" + p.String()
+	if d := os.Getenv("SYMGO_DUMP"); d != "" {
+		os.WriteFile(filepath.Join(d, "bmc_base_"+bs.Name+".smt2"), []byte(baseText), 0o644)
+	}
+	scratch, _ := os.MkdirTemp("", "symgo-bmc")
+	defer os.RemoveAll(scratch)
+	timeout := bs.TimeoutSec
+	if timeout == 0 {
+		timeout = 300
+		if tier == "thorough" {
+			timeout = 1800
+		}
+	}
+	var stateVars []string
+	for k := 0; k <= sys.K; k++ {
+		for t := 0; t < sys.nthreads; t++ {
+			stateVars = append(stateVars, smtName(fmt.Sprintf("pc%d!%d", t, k)))
+		}
+		for _, c := range sys.cells {
+			stateVars = append(stateVars, smtName(fmt.Sprintf("%s!%d", c.Key, k)))
+		}
+		if k < sys.K {
+			stateVars = append(stateVars, smtName(fmt.Sprintf("sched!%d", k)))
+		}
+	}
+	type oblRes struct {
+		ob    *obligation
+		res   string
+		dur   time.Duration
+		model map[string]uint64
+		out   string
+	}
+	results := make([]oblRes, len(obls))
+	var wg sync.WaitGroup
+	sem := make(chan struct{}, 16)
+	for i, ob := range obls {
+		wg.Add(1)
+		go func(i int, ob *obligation) {
+			defer wg.Done()
+			sem <- struct{}{}
+			defer func() { <-sem }()
+			c := p.Child()
+			c.Assert(ob.term)
+			text := baseText + c.String() + "(check-sat)\n"
+			if ob.expect == "unsat" {
+				// values of the state variables only (get-model would print every definition)
+				text += "(get-value (" + strings.Join(stateVars, " ") + "))\n"
+			}
+			r := RunOneShot("z3", text, timeout, scratch)
+			or := oblRes{ob: ob, res: r.Res, dur: r.Dur, out: r.Out}
+			if r.Res == "sat" {
+				or.model = map[string]uint64{}
+				parseValues(r.Out, or.model)
+			}
+			results[i] = or
+		}(i, ob)
+	}
+	wg.Wait()
+	var oblSummary []map[string]interface{}
+	for _, r := range results {
+		bmcStats.NQ++
+		bmcStats.Dur += r.dur
+		switch r.res {
+		case "sat":
+			bmcStats.NSat++
+		case "unsat":
+			bmcStats.NUnsat++
+		default:
+			bmcStats.NUnk++
+		}
+		br.Obligations++
+		br.ObligationNames = append(br.ObligationNames, r.ob.name)
+		entry := map[string]interface{}{"obligation": r.ob.name, "kind": r.ob.kind, "expected": r.ob.expect, "solver": r.res, "solver_s": r.dur.Seconds()}
+		switch {
+		case r.res != "sat" && r.res != "unsat":
+			first := strings.SplitN(r.out, "\n", 2)[0]
+			br.Inconclusive = append(br.Inconclusive, fmt.Sprintf("%s: obligation %q: solver %s (%s)", bs.Name, r.ob.name, r.res, first))
+		case r.ob.expect == r.res:
+			br.Discharged++
+			if r.res == "sat" && len(br.Samples) < 3 {
+				br.Samples = append(br.Samples, map[string]interface{}{"witness_for": r.ob.name, "schedule": sys.traceOf(r.model)})
+			}
+		case r.ob.expect == "sat":
+			br.Inconclusive = append(br.Inconclusive, fmt.Sprintf("%s: vacuous: witness %q is unreachable", bs.Name, r.ob.name))
+		case r.ob.kind == "unwind":
+			br.Inconclusive = append(br.Inconclusive, fmt.Sprintf("%s: %q failed (shared-slice bound %d too small, or a branch the encoder pruned is reachable)", bs.Name, r.ob.name, bmcMaxSeq))
+		default:
+			// a property obligation is satisfiable: counterexample schedule
+			trace := sys.traceOf(r.model)
+			dir := filepath.Join(verifDir(), "replays", id, sanitize(bs.Name+"-"+r.ob.name))
+			os.RemoveAll(dir)
+			os.MkdirAll(dir, 0o755)
+			os.WriteFile(filepath.Join(dir, "trace.txt"), []byte(strings.Join(trace, "\n")+"\n"), 0o644)
+			what := fmt.Sprintf("%s: %s violated (%s); schedule: %s", bs.Name, r.ob.name, r.ob.detail, strings.Join(trace, " | "))
+			entry["counterexample"] = trace
+			br.Violations = append(br.Violations, BMCViolation{Replay: dir, What: what})
+		}
+		oblSummary = append(oblSummary, entry)
+	}
+	br.Summary["obligations"] = oblSummary
+	br.Summary["wall_s"] = time.Since(t0).Seconds()
+	for _, tt := range sys.trees {
+		br.Paths += tt.paths
+	}
+	return br
+}
+
+// parseModel reads (define-fun name () sort value) lines of z3's get-model output.
+func parseModel(out string) map[string]uint64 {
+	m := map[string]uint64{}
+	toks := strings.Fields(strings.NewReplacer("(", " ( ", ")", " ) ").Replace(out))
+	for i := 0; i+1 < len(toks); i++ {
+		if toks[i] != "define-fun" {
+			continue
+		}
+		name := strings.Trim(toks[i+1], "|")
+		// find the value: last token before the closing paren of this define-fun
+		depth := 1
+		j := i + 2
+		var last string
+		for ; j < len(toks) && depth > 0; j++ {
+			switch toks[j] {
+			case "(":
+				depth++
+			case ")":
+				depth--
+			default:
+				last = toks[j]
+			}
+		}
+		switch {
+		case last == "true":
+			m[name] = 1
+		case last == "false":
+			m[name] = 0
+		case strings.HasPrefix(last, "#x"):
+			fmt.Sscanf(last[2:], "%x", new(uint64))
+			var v uint64
+			fmt.Sscanf(last[2:], "%x", &v)
+			m[name] = v
+		case strings.HasPrefix(last, "#b"):
+			var v uint64
+			for _, ch := range last[2:] {
+				v = v<<1 | uint64(ch-'0')
+			}
+			m[name] = v
+		}
+	}
+	return m
+}
+
+// traceOf renders the schedule of a model: which thread fired which transaction at each step.
+func (s *bmcSystem) traceOf(model map[string]uint64) []string {
+	var out []string
+	for k := 0; k < s.K; k++ {
+		changed := false
+		var parts []string
+		for t := 0; t < s.nthreads; t++ {
+			a, b := model[fmt.Sprintf("pc%d!%d", t, k)], model[fmt.Sprintf("pc%d!%d", t, k+1)]
+			if a != b {
+				changed = true
+				desc := "?"
+				for _, tx := range s.txs[t] {
+					if uint64(tx.id) == a {
+						desc = tx.first.Kind
+						if tx.first.Cell != nil {
+							desc += " " + tx.first.Cell.Desc
+						}
+						if tx.first.Mutex != "" {
+							desc += " " + tx.first.Mutex
+						}
+						if tx.first.Name != "" {
+							desc += " " + tx.first.Name
+						}
+						if tx.first.Where != "" {
+							desc += " in " + tx.first.Where
+						}
+					}
+				}
+				parts = append(parts, fmt.Sprintf("%s: %s (tx %d->%d)", s.trees[t].name, desc, a, b))
+			}
+		}
+		if changed {
+			var cs []string
+			for _, c := range s.cells {
+				v0, v1 := model[fmt.Sprintf("%s!%d", c.Key, k)], model[fmt.Sprintf("%s!%d", c.Key, k+1)]
+				if v0 != v1 {
+					cs = append(cs, fmt.Sprintf("%s=%d", c.Desc, int64(v1)))
+				}
+			}
+			line := fmt.Sprintf("step %d: %s", k, strings.Join(parts, " + "))
+			if len(cs) > 0 {
+				line += "  {" + strings.Join(cs, ", ") + "}"
+			}
+			out = append(out, line)
+		}
+	}
+	return out
 }
